@@ -28,9 +28,13 @@ Definition skel (c : component) : N * N * bytes :=
 
 Definition method_skel (name : bytes) : list (N * N * bytes) :=
   [(0, 1, name ++ bs "Request"); (0, 1, name ++ bs "Response")].
+(* a command method without a response block returns google.api.HttpBody: no Response message *)
+Definition command_method_skel (m : method) : list (N * N * bytes) :=
+  (0, 1, md_name m ++ bs "Request")
+  :: match md_response m with Some _ => [(0, 1, md_name m ++ bs "Response")] | None => [] end.
 
 Definition command_skel (e : entity) (c : command) : list (N * N * bytes) :=
-  flat_map (fun m => method_skel (md_name m)) (c_methods c)
+  flat_map command_method_skel (c_methods c)
   ++ [(2, 1, command_service_name e c ++ bs "Service")].
 
 Definition summary_skel (e : entity) (s : summary) : list (N * N * bytes) :=
@@ -63,6 +67,8 @@ Proof.
   intros e c. unfold command_components, service_components, command_skel.
   rewrite map_app, map_flat_map, flat_map_concat_map, map_map, <- flat_map_concat_map.
   cbn [map skel sv_name]. f_equal.
+  apply flat_map_ext'. intros m. unfold method_components, command_method_skel. cbn [fst map skel m_name].
+  destruct (md_response m); reflexivity.
 Qed.
 
 Lemma summary_components_skel : forall e s,
@@ -133,7 +139,7 @@ Lemma resolves_enum : forall D n j r q fl p t fi,
 Proof. intros. unfold resolves, ref_resolves. cbn [f_type]. now apply resolves_local. Qed.
 
 Lemma resolves_ufield : forall D u, resolves D (of_ufield u) = true.
-Proof. intros D [n [pt k|p t] r]; reflexivity. Qed.
+Proof. intros D [n [pt k|p f t] r o]; reflexivity. Qed.
 Lemma resolves_ufields : forall D l, forallb (resolves D) (map of_ufield l) = true.
 Proof.
   intros D l. induction l as [|u l IH]; [reflexivity|]. cbn [map forallb].
@@ -211,8 +217,12 @@ Section Closed.
     apply in_flat_map in Hc. destruct Hc as [m [Hm Hc]].
     apply in_map_iff in Hm. destruct Hm as [md [<- _]].
     unfold method_components in Hc. cbn [fst In] in Hc.
-    destruct Hc as [<-|[<-|[]]]; cbn [m_fields m_nested flat_map app] in Hf;
-      rewrite app_nil_r in Hf; apply in_map_iff in Hf; destruct Hf as [u [<- _]]; apply resolves_ufield.
+    destruct Hc as [<-|Hc].
+    - cbn [m_fields m_nested flat_map app] in Hf. rewrite app_nil_r in Hf.
+      apply in_map_iff in Hf. destruct Hf as [u [<- _]]. apply resolves_ufield.
+    - destruct (md_response md) as [r|]; cbn [option_map In] in Hc; [|destruct Hc].
+      destruct Hc as [<-|[]]. cbn [m_fields m_nested flat_map app] in Hf. rewrite app_nil_r in Hf.
+      apply in_map_iff in Hf. destruct Hf as [u [<- _]]. apply resolves_ufield.
   Qed.
 
   Lemma ok_publish : ok (fields_of (publish_components e)) = true.
@@ -276,11 +286,21 @@ Proof.
 Qed.
 
 (* the compiler accepts exactly what entityNode.run accepts: closedness never fails *)
-Theorem compile_expand : forall e, compile e = expand e.
+Theorem compile_expand : forall e, fields_ok e = true -> compile e = expand e.
 Proof.
-  intros e. unfold compile, expand.
+  intros e Hok. unfold compile, expand.
   destruct (default_filters e _) as [fl|]; [|reflexivity].
-  destruct (nodup_bytes _); [|reflexivity]. now rewrite expand_closed.
+  destruct (nodup_bytes _); [|reflexivity]. now rewrite expand_closed, Hok.
+Qed.
+
+(* the only compile error the expansion itself can cause is the optional/required clash of
+   a user-declared field; "type not found" never happens *)
+Theorem compile_errors : forall e cs, expand e = Ok cs ->
+  compile e = if fields_ok e then Ok cs else Err "cannot be both required and optional".
+Proof.
+  intros e cs H. unfold compile. rewrite H.
+  unfold expand in H. destruct (default_filters e _) as [fl|]; [|discriminate].
+  destruct (nodup_bytes _); [|discriminate]. inversion H. now rewrite expand_closed.
 Qed.
 
 (* ---- the main file holds exactly Keys, Data, State, EventType, Event -------------- *)
@@ -317,7 +337,8 @@ Proof.
   { unfold query_components. apply msgs0_service. intros m [<-|[<-|[<-|[]]]]; reflexivity. }
   assert (Hc : msgs_of_file 0 (flat_map (command_components e) (e_commands e)) = []).
   { apply msgs0_flat_map_nil. intros c. unfold command_components. apply msgs0_service.
-    intros m Hm. apply in_map_iff in Hm. destruct Hm as [md [<- _]]. reflexivity. }
+    intros m Hm. apply in_map_iff in Hm. destruct Hm as [md [<- _]].
+    unfold method_components. cbn [fst]. destruct (option_map _ (md_response md)); reflexivity. }
   assert (Hs : msgs_of_file 0 (flat_map (summary_components e) (e_summaries e)) = []).
   { apply msgs0_flat_map_nil. intros s. reflexivity. }
   rewrite Hq, Hc, Hs. reflexivity.
@@ -397,17 +418,20 @@ Proof.
     + unfold query_components. apply ann_service; [reflexivity|exact Ap| |cbn; constructor].
       intros m [<-|[<-|[<-|[]]]]; cbn; constructor.
     + intros c. unfold command_components. apply ann_service; [reflexivity|exact Ap| |cbn; constructor].
-      intros m Hm. apply in_map_iff in Hm. destruct Hm as [md [<- _]]. cbn. constructor.
+      intros m Hm. apply in_map_iff in Hm. destruct Hm as [md [<- _]].
+      unfold method_components. cbn [fst]. destruct (option_map _ (md_response md)); cbn; constructor.
   - apply sel_expand; [reflexivity|exact As|cbn; constructor| | |cbn; constructor|intros s; cbn; constructor].
     + unfold query_components. apply ann_service; [reflexivity|exact As| |cbn; repeat constructor].
       intros m [<-|[<-|[<-|[]]]]; cbn; constructor.
     + intros c. unfold command_components. apply ann_service; [reflexivity|exact As| |cbn; repeat constructor].
-      intros m Hm. apply in_map_iff in Hm. destruct Hm as [md [<- _]]. cbn. constructor.
+      intros m Hm. apply in_map_iff in Hm. destruct Hm as [md [<- _]].
+      unfold method_components. cbn [fst]. destruct (option_map _ (md_response md)); cbn; constructor.
   - apply sel_expand; [reflexivity|exact At|cbn; constructor| | |cbn; repeat constructor|intros s; cbn; repeat constructor].
     + unfold query_components. apply ann_service; [reflexivity|exact At| |cbn; constructor].
       intros m [<-|[<-|[<-|[]]]]; cbn; constructor.
     + intros c. unfold command_components. apply ann_service; [reflexivity|exact At| |cbn; constructor].
-      intros m Hm. apply in_map_iff in Hm. destruct Hm as [md [<- _]]. cbn. constructor.
+      intros m Hm. apply in_map_iff in Hm. destruct Hm as [md [<- _]].
+      unfold method_components. cbn [fst]. destruct (option_map _ (md_response md)); cbn; constructor.
 Qed.
 
 (* ---- the event oneof <-> the declared events --------------------------------------- *)
@@ -432,21 +456,21 @@ Theorem keys_in_declaration_order : forall e,
   map f_json (m_fields (keys_msg e)) = map (fun k => uf_name (k_def k)) (e_keys e).
 Proof.
   intros e. unfold keys_msg. cbn [m_fields]. rewrite map_map. apply map_ext.
-  intros [[n [pt k|p t] r] s]; reflexivity.
+  intros [[n [pt k|p f t] r o] s]; reflexivity.
 Qed.
 
 Theorem primary_keys_required : forall e f,
   In f (m_fields (keys_msg e)) -> f_primary f = true -> f_required f = true.
 Proof.
   intros e f Hf Hp. unfold keys_msg in Hf. cbn [m_fields] in Hf.
-  apply in_map_iff in Hf. destruct Hf as [[[n [pt k|p t] r] s] [<- _]]; cbn in *; [discriminate|].
+  apply in_map_iff in Hf. destruct Hf as [[[n [pt k|p fk t] r o] s] [<- _]]; cbn in *; [discriminate|].
   subst p. apply orb_true_r.
 Qed.
 
 Definition primary_keys (e : entity) : list ufield := filter is_primary (map k_def (e_keys e)).
 
 Lemma primary_is_key : forall u, is_primary u = true -> is_key_field u = true.
-Proof. intros [n [pt k|p t] r] H; [discriminate|reflexivity]. Qed.
+Proof. intros [n [pt k|p f t] r o] H; [discriminate|reflexivity]. Qed.
 
 (* the primary keys are, in declaration order, among the Get/Events path keys ... *)
 Theorem get_keys_primary : forall e, filter is_primary (get_keys e) = primary_keys e.
@@ -532,7 +556,7 @@ Definition brace (u : ufield) : bytes := [123] ++ to_snake (uf_name u) ++ [125].
 
 Lemma http_rule_path_keys : forall ks tail,
   Forall (fun u => no_slash (uf_name u) = true) ks ->
-  Forall (fun p => no_slash p = true) tail -> ks ++ map (fun p => mkU p (KScalar 0 []) false) tail <> [] ->
+  Forall (fun p => no_slash p = true) tail -> ks ++ map (fun p => mkU p (KScalar 0 []) false false) tail <> [] ->
   http_rule_path (join [47] (key_path ks ++ tail)) = join [47] (map brace ks ++ map conv_part tail).
 Proof.
   intros ks tail Hk Ht Hne. unfold http_rule_path. rewrite split_join.
